@@ -357,3 +357,121 @@ Proof.
   destruct (table_ctxt_good _ Hbb Hl) as [Hg Hat].
   destruct (layout_roundtrip rl wl fill vs rest _ Hc Hv Ha Hg Hat) as [c' [E [_ [_ A]]]]. eauto.
 Qed.
+
+(* ---------- helpers for the per-table instances *)
+Fixpoint no_asserts (rl : list ritem) : bool :=
+  match rl with
+  | [] => true
+  | RAssert _ _ :: _ => false
+  | _ :: r => no_asserts r
+  end.
+
+Lemma asserts_hold_none rl : forall env ws, no_asserts rl = true -> asserts_hold rl env ws = true.
+Proof.
+  induction rl as [|it rl IH]; intros env ws H; [reflexivity|].
+  destruct it; cbn [no_asserts asserts_hold] in *; try discriminate; apply IH; exact H.
+Qed.
+
+(* number of values a reader keeps *)
+Fixpoint rcount (rl : list ritem) : nat :=
+  match rl with
+  | [] => O
+  | RRead _ _ true :: r => S (rcount r)
+  | RRead _ _ false :: r => rcount r
+  | RAssert _ _ :: r => rcount r
+  | RBytes _ k :: r => (Z.to_nat k + rcount r)%nat
+  | _ :: r => S (rcount r)
+  end.
+
+Lemma vals_okb_length rl : forall vs, vals_okb rl vs = true -> length vs = rcount rl.
+Proof.
+  induction rl as [|it rl IH]; intros vs H.
+  - destruct vs; [reflexivity|discriminate].
+  - destruct it as [n p keep|n k|n p vals|n p mask|n k]; cbn [vals_okb rcount] in *.
+    + destruct keep; [|apply IH; exact H]. destruct vs as [|v vs]; [discriminate|].
+      apply andb_true_iff in H. destruct H as [_ H]. cbn [length]. rewrite (IH vs H). reflexivity.
+    + apply IH; exact H.
+    + destruct vs as [|v vs]; [discriminate|]. apply andb_true_iff in H. destruct H as [_ H].
+      cbn [length]. rewrite (IH vs H). reflexivity.
+    + destruct vs as [|v vs]; [discriminate|]. apply andb_true_iff in H. destruct H as [_ H].
+      cbn [length]. rewrite (IH vs H). reflexivity.
+    + apply andb_true_iff in H. destruct H as [H1 H]. apply andb_true_iff in H1. destruct H1 as [Hl _].
+      apply Nat.leb_le in Hl. specialize (IH _ H). rewrite skipn_length in IH. lia.
+Qed.
+
+(* with the placeholders filled, the expected read-back is the value itself *)
+Lemma readback_filled rl : forall wl vs,
+  items_compat rl wl = true -> vals_okb rl vs = true -> readback true wl vs = vs.
+Proof.
+  induction rl as [|it rl IH]; intros wl vs Hc Hv; destruct wl as [|w wl]; cbn [items_compat] in Hc; try discriminate.
+  - destruct vs; [reflexivity|discriminate].
+  - apply andb_true_iff in Hc. destruct Hc as [Hi Hc].
+    destruct it as [n p keep|n k|n p vals|n p mask|n k]; destruct w as [m q|q j|m q|m q wv|m j];
+      cbn [item_compat] in Hi; try discriminate; try (destruct keep; discriminate);
+      cbn [vals_okb] in Hv; cbn [readback].
+    + destruct keep; [|discriminate]. destruct vs as [|v vs]; [discriminate|]. apply andb_true_iff in Hv. destruct Hv as [_ Hv].
+      cbn [hd tl]. rewrite (IH wl vs Hc Hv). reflexivity.
+    + destruct keep; [discriminate|]. apply (IH wl vs Hc Hv).
+    + destruct keep; [|discriminate]. destruct vs as [|v vs]; [discriminate|]. apply andb_true_iff in Hv. destruct Hv as [_ Hv].
+      cbn [hd tl]. rewrite (IH wl vs Hc Hv). reflexivity.
+    + destruct vs as [|v vs]; [discriminate|]. apply andb_true_iff in Hv. destruct Hv as [_ Hv].
+      cbn [hd tl]. rewrite (IH wl vs Hc Hv). reflexivity.
+    + destruct vs as [|v vs]; [discriminate|]. apply andb_true_iff in Hv. destruct Hv as [_ Hv].
+      cbn [hd tl]. rewrite (IH wl vs Hc Hv). reflexivity.
+    + apply andb_true_iff in Hi. destruct Hi as [Hi _]. apply andb_true_iff in Hi. destruct Hi as [_ Hkj].
+      apply Z.eqb_eq in Hkj. subst j.
+      apply andb_true_iff in Hv. destruct Hv as [_ Hv]. rewrite (IH wl _ Hc Hv). apply firstn_skipn.
+Qed.
+
+(* an assert-free layout: the simple form *)
+Corollary layout_roundtrip_simple rl wl vs rest c :
+  compat rl wl = true -> no_asserts rl = true -> vals_okb rl vs = true ->
+  cgood c -> at_bytes c (write_items false wl vs ++ rest) ->
+  exists c', read_items rl [] c = Ok (readback false wl vs, c') /\ advanced c c' rest.
+Proof.
+  intros Hc Hn Hv Hg Hat.
+  assert (strip_asserts rl = rl) as Hs.
+  { clear -Hn. induction rl as [|it rl IH]; [reflexivity|]. destruct it; cbn [no_asserts strip_asserts] in *; try discriminate; rewrite IH by exact Hn; reflexivity. }
+  apply layout_roundtrip; try assumption; [rewrite Hs; exact Hv|apply asserts_hold_none; exact Hn].
+Qed.
+
+Lemma len_write_items rl : forall wl vs fill,
+  items_compat rl wl = true -> vals_okb rl vs = true ->
+  len (write_items fill wl vs) = fold_right (fun s a => match s with SPrim p => spec_size p | SBytes k => k end + a) 0 (wslots wl).
+Proof.
+  induction rl as [|it rl IH]; intros wl vs fill Hc Hv; destruct wl as [|w wl]; cbn [items_compat] in Hc; try discriminate.
+  - reflexivity.
+  - apply andb_true_iff in Hc. destruct Hc as [Hi Hc].
+    destruct it as [n p keep|n k|n p vals|n p mask|n k]; destruct w as [m q|q j|m q|m q wv|m j];
+      cbn [item_compat] in Hi; try discriminate; try (destruct keep; discriminate);
+      cbn [vals_okb] in Hv; cbn [write_items wslots fold_right]; rewrite len_app.
+    + destruct keep; [|discriminate]. destruct vs as [|v vs]; [discriminate|]. apply andb_true_iff in Hv. destruct Hv as [_ Hv].
+      rewrite len_write_prim. cbn [tl]. rewrite (IH wl vs fill Hc Hv). reflexivity.
+    + destruct keep; [discriminate|]. rewrite len_write_prim. rewrite (IH wl vs fill Hc Hv). reflexivity.
+    + destruct keep; [|discriminate]. destruct vs as [|v vs]; [discriminate|]. apply andb_true_iff in Hv. destruct Hv as [_ Hv].
+      rewrite len_write_prim. cbn [tl]. rewrite (IH wl vs fill Hc Hv). reflexivity.
+    + destruct vs as [|v vs]; [discriminate|]. apply andb_true_iff in Hv. destruct Hv as [_ Hv].
+      rewrite len_write_prim. cbn [tl]. rewrite (IH wl vs fill Hc Hv). reflexivity.
+    + destruct vs as [|v vs]; [discriminate|]. apply andb_true_iff in Hv. destruct Hv as [_ Hv].
+      rewrite len_write_prim. cbn [tl]. rewrite (IH wl vs fill Hc Hv). reflexivity.
+    + apply andb_true_iff in Hi. destruct Hi as [Hi Hk0]. apply andb_true_iff in Hi. destruct Hi as [_ Hkj].
+      apply Z.eqb_eq in Hkj. subst j. apply Z.leb_le in Hk0.
+      apply andb_true_iff in Hv. destruct Hv as [Hv1 Hv]. apply andb_true_iff in Hv1. destruct Hv1 as [Hl _].
+      apply Nat.leb_le in Hl. rewrite (firstn_len_Z vs k Hk0 Hl). rewrite (IH wl _ fill Hc Hv). reflexivity.
+Qed.
+
+Fixpoint no_holes (wl : list witem) : bool :=
+  match wl with
+  | [] => true
+  | WHole _ _ :: _ => false
+  | _ :: r => no_holes r
+  end.
+Lemma readback_no_holes wl : forall vs, no_holes wl = true -> readback false wl vs = readback true wl vs.
+Proof.
+  induction wl as [|w wl IH]; intros vs H; [reflexivity|].
+  destruct w; cbn [no_holes readback] in *; try discriminate; rewrite IH by exact H; reflexivity.
+Qed.
+(* a writer without placeholders, compatible with its reader: the read-back is the value *)
+Lemma readback_id rl wl vs :
+  compat rl wl = true -> no_holes wl = true -> vals_okb (strip_asserts rl) vs = true -> readback false wl vs = vs.
+Proof. intros Hc Hh Hv. rewrite readback_no_holes by exact Hh. exact (readback_filled _ wl vs Hc Hv). Qed.
